@@ -74,6 +74,12 @@ def readback(value, result, by_source, pynames, path="$", out=None, depth=0):
                         out.append({"at": f"{path}.{k}", "problem": "member-dropped"})
                         continue
                 readback(v, r, by_source, pynames, f"{path}.{k}", out, depth + 1)
+            for name in cls.properties:
+                # every declared property is readable as an attribute, supplied or not
+                try:
+                    getattr(result, name)
+                except AttributeError:
+                    out.append({"at": f"{path}.<{name}>", "problem": "declared-property-not-readable"})
             explained = {decl.get(k, k) for k in value}
             for key in result._dict:  # noqa: SLF001 - "nothing invented" direction only
                 if key in explained:
